@@ -86,8 +86,9 @@ class AllocatorAwarePointer
     }
 
     constexpr AllocatorAwarePointer(AllocatorAwarePointer&& other) noexcept
-        : impl_(other.release(), other.size(), other.get_allocator())
+        : impl_(other.get(), other.size(), other.get_allocator())
     {
+        other.release();
     }
 
 #if __cpp_constexpr_dynamic_alloc
@@ -131,8 +132,8 @@ class AllocatorAwarePointer
         {
             propagate_on_container_move_assignment(other);
             deallocate();
-            get() = other.release();
             size() = other.size();
+            get() = other.release();
         }
         return *this;
     }
@@ -151,13 +152,17 @@ class AllocatorAwarePointer
 
     constexpr explicit operator bool() const noexcept { return get() != nullptr; }
 
-    constexpr auto release() noexcept { return std::exchange(impl_.ptr_, nullptr); }
+    constexpr auto release() noexcept
+    {
+        impl_.size_ = {};
+        return std::exchange(impl_.ptr_, nullptr);
+    }
 
     constexpr void reset(AllocatorAwarePointer&& other) noexcept
     {
         deallocate();
-        get() = other.release();
         size() = other.size();
+        get() = other.release();
     }
 
     constexpr void propagate_on_container_copy_assignment(const AllocatorAwarePointer& other) noexcept
